@@ -406,6 +406,19 @@ def _coverage_dump(shard):
         json.dump({k: sorted(v) for k, v in _COV.items()}, f)
 
 
+def _partial(w):
+    """what a shard had established before a harness error ended it: violations already found stay violations"""
+    if w is None:
+        return None
+    try:
+        res = w.stats.to_json()
+        res["failures"] = w.failures
+        res["canaries"] = []
+        return res
+    except Exception:
+        return None
+
+
 def _worker_main(conn, modname, tier, seed, shard, nshards, open_keys, findings):
     # keep stdout for the parent's contract lines
     try:
@@ -419,14 +432,15 @@ def _worker_main(conn, modname, tier, seed, shard, nshards, open_keys, findings)
         _coverage_start()
         mod = importlib.import_module(modname)
         plan = mod.plan(tier)
+        w = None
         w = Worker(mod, tier, seed, shard, nshards, plan, set(open_keys))
         res = w.run(findings)
         _coverage_dump(shard)
         conn.send(("ok", res))
     except HarnessError as e:
-        conn.send(("harness", str(e)))
+        conn.send(("harness", str(e), _partial(w)))
     except BaseException as e:  # noqa
-        conn.send(("harness", "worker crashed: %r\n%s" % (e, traceback.format_exc())))
+        conn.send(("harness", "worker crashed: %r\n%s" % (e, traceback.format_exc()), _partial(w)))
     finally:
         try:
             conn.close()
@@ -510,14 +524,22 @@ def run_check(mod, tier, seed, shards_override=None):
         p.join(5)
     from .kit import env as _env
     _env.sweep([p.pid for p in procs])
-    if pending:
-        print("HARNESS-ERROR property=%s watchdog expired after %ds (inconclusive)" % (mod.ID, hard_limit),
-              file=sys.stderr)
-        return 2
     errs = sorted(set(r[1] for r in results.values() if r[0] != "ok"))
+    if pending:
+        errs.append("watchdog expired after %ds (inconclusive)" % hard_limit)
     if errs:
         print("HARNESS-ERROR property=%s\n%s" % (mod.ID, "\n".join(errs)), file=sys.stderr)
+    # a harness error makes the run inconclusive (exit 2, nothing written) - unless some shard had already found a violation:
+    # that stays a violation and is reported as one
+    usable = {}
+    for k, r in results.items():
+        if r[0] == "ok":
+            usable[k] = r
+        elif len(r) > 2 and r[2]:
+            usable[k] = ("ok", r[2])
+    if errs and not any(u[1]["failures"] for u in usable.values()):
         return 2
+    results = usable
 
     # merge
     evaluations = 0
